@@ -34,7 +34,8 @@ Ch alpha(unsigned i)
     case 0: return Ch('a');
     case 1: return sizeof(Ch) == 1 ? static_cast<Ch>(0xE9) : static_cast<Ch>(~Ch(0x16)); // top bit set: sign of compare for every character type
     case 2: return Ch('b');
-    default: return Ch(0);
+    case 3: return Ch(0);
+    default: return sizeof(Ch) == 1 ? Ch('x') : static_cast<Ch>(Ch('a') + 0x100);
     }
 }
 std::string show(SV s)
@@ -124,7 +125,7 @@ struct Env {
     {
         if (!ch.random()) { return pool_string(ch.pick(kPool)); }
         std::size_t len = ch.rng->below(3) == 0 ? (std::size_t)ch.rng->below(maxlen_hint + 3) : (std::size_t)ch.rng->below(5);
-        unsigned A      = 2 + (unsigned)ch.rng->below(3);
+        unsigned A      = 2 + (unsigned)ch.rng->below(4);
         Str s;
         for (std::size_t i = 0; i < len; ++i) { s += alpha((unsigned)ch.rng->below(A)); }
         return s;
@@ -135,8 +136,13 @@ struct Env {
     // a count: 0,1,2,.. up to `interesting`+1 and npos
     std::size_t draw_count(std::size_t interesting)
     {
-        unsigned k = ch.pick((unsigned)interesting + 3);
-        return k == interesting + 2 ? NPOS : k;
+        // 0 .. interesting+1, npos, and large-but-not-npos values (a count narrowed to 8/16 bits would wrap to something small)
+        unsigned k = ch.pick((unsigned)interesting + 6);
+        if (k == interesting + 2) { return NPOS; }
+        if (k == interesting + 3) { return 256 + (interesting ? 1 : 0); }
+        if (k == interesting + 4) { return 65536 + 1; }
+        if (k == interesting + 5) { return NPOS / 2 + 2; }
+        return k;
     }
     static char const* poscls(std::size_t pos, std::size_t size)
     {
@@ -244,8 +250,9 @@ struct Env {
             m = t;
             // copy is independent of its source
             if (!t.empty()) {
-                src[0] = Ch('x');
-                if (e[0] == Ch('x')) { vf::diverge("copy-aliases-source", "changed", "unchanged"); }
+                Ch const before = e[0];
+                src[0]          = before == Ch('q') ? Ch('r') : Ch('q');
+                if (e[0] != before) { vf::diverge("copy-aliases-source", "changed", "unchanged"); }
             }
             COVER("operator=(string const&)", h);
             break;
@@ -1375,7 +1382,7 @@ void random_case(vf::Rng& rng)
     Str start;
     std::size_t len = rng.chance(1, 2) ? N - (std::size_t)rng.below(N < 3 ? N + 1 : 3) : (std::size_t)rng.below(N + 1);
     if (len > N) { len = N; }
-    for (std::size_t i = 0; i < len; ++i) { start += alpha((unsigned)rng.below(4)); }
+    for (std::size_t i = 0; i < len; ++i) { start += alpha((unsigned)rng.below(5)); }
     EnvN env(ch, start);
     unsigned steps = 40;
     for (unsigned s = 0; s < steps; ++s) { env.apply((unsigned)rng.below(EnvN::kFamilies)); }
